@@ -10,10 +10,10 @@ import (
 
 	"github.com/decred/dcrd/dcrec/secp256k1/v4"
 	"github.com/elnosh/gonuts/cashu"
-	"github.com/elnosh/gonuts/cashu/nuts/nut20"
 	"github.com/elnosh/gonuts/cashu/nuts/nut04"
 	"github.com/elnosh/gonuts/cashu/nuts/nut05"
 	"github.com/elnosh/gonuts/cashu/nuts/nut07"
+	"github.com/elnosh/gonuts/cashu/nuts/nut20"
 	"github.com/elnosh/gonuts/mint/storage"
 
 	"verif/harness/dbproxy"
@@ -99,9 +99,9 @@ type Model struct {
 	Refused []Out
 	// mint quote (index) of the refused mint request an output belonged to, by B_
 	RefusedQuote map[string]int
-	Issued      map[string]uint64 // per keyset: sum of signatures handed out
-	Redeemed    map[string]uint64 // per keyset: sum of proofs consumed
-	Steps       int
+	Issued       map[string]uint64 // per keyset: sum of signatures handed out
+	Redeemed     map[string]uint64 // per keyset: sum of proofs consumed
+	Steps        int
 }
 
 func newModel() *Model {
